@@ -96,6 +96,19 @@ fn one<X: Sx>(ctx: &Ctx, idx: u64, l: usize, exhaustive_upto: usize) {
             }
             None => ctx.violation("C03:decode-failed", json!({"outcome":dec.outcome.short(),"proof":hx_full(&pb),"d":detail()})),
         }
+        if k % 4 == 2 || u == 0 {
+            // the serde codec of the proof must be a faithful transport as well
+            let js = serde_json::to_string(&proof).unwrap();
+            match ctx.call("json/PoKSignature", &case, Some(l as u64 + 64), || serde_json::from_str::<Pok<X>>(&js)).value {
+                Some(p3) => {
+                    let v = ctx.call("proof_verify", &case, Some(l as u64 + 64), || p3.proof_verify(&pk, dm_opt, d_opt, hdr.as_opt(), ph.as_opt()));
+                    if !v.outcome.is_ok() || p3 != proof {
+                        ctx.violation("C03:proof-rejected-after-json-roundtrip", json!({"outcome":v.outcome.short(),"d":detail()}));
+                    }
+                }
+                None => ctx.violation("C03:json-decode-failed", json!({"json":js,"d":detail()})),
+            }
+        }
         if k == 1 {
             ctx.sample(json!({"case":case,"disclosed":d,"proof_len":pb.len(),"rng_draws":g.draws.len(),"verify":"Ok"}));
         }
